@@ -72,6 +72,11 @@ T["C06"] = ("certainty-equivalence contract on every HedgeLoss.cash (subclass tr
             "Every cash() call (closed forms and the default search, incl. user subclasses) is judged: loss(constant sample at cash) = loss(sample) within search precision x local "
             "slope, min <= cash <= max, cash <= mean for risk-averse criteria, quadratic CVaR cash = -risk; Hedger.price is judged against -cash(portfolio, payoff) recomputed from the "
             "tensors tapped inside the call (n_times simulations), payoff-shift equivariance and entropic price = loss under a re-seeded RNG. Two known findings (default search).", "4 C06")
+T["C14"] = ("finite-difference oracle on the real loss-through-hedger scalar (under autograd anomaly detection) + graph-presence monitor",
+            "For frozen simulated buffers the autograd gradient of criterion(compute_portfolio, payoff) with respect to every model parameter is compared with Richardson central "
+            "differences of the same scalar on the same paths, over smooth models (incl. output activations that save their output), feature sets with/without prev_hedge, "
+            "costs, hedge lists, all criteria (incl. quadratic CVaR in the concentrated-P&L regime), both branches and train/eval mode; price() and compute_loss(enable_grad=False) "
+            "must carry no graph.", "4 C14")
 NA = {}
 
 def main():
